@@ -1114,7 +1114,7 @@ func init() {
 			c.Correspondence("pat-maxpad: pkg/protocol maxPaddingSizeWithTrafficPattern vs Mieru.Padding.maxPadTP")
 			c.Correspondence("pat-le-send: pkg/protocol Session.lowEntropySendConfig vs Mieru.Pattern.lowEntropySendConfig (hook)")
 			c.Correspondence("pat-rewrite-range/pat-rewrite-flags: pkg/cipher nonce rewriting observed through Encrypt vs Mieru.Pattern.nonceRewriteRange/rewriteFlags")
-			c.Note("TODO(integrator): on-the-wire monitors over whole sessions (prefixLen/suffixLen, nonce bytes, protocol 10/11, Write boundaries) need the in-memory network")
+			c.Note("on-the-wire monitors over whole sessions run in the extra stage c16_wire.go")
 			c16Corpus(c)
 			c16Enums(c)
 			// --- every subset of explicit fields
